@@ -184,6 +184,10 @@ def cases_c08(ctx):
         hs.append(([EDIT("output_mode"), RUN(), EDIT("output_mode"), RUN()], build))
         hs.append(([EDIT("output_mode"), RUN(), EDIT("validator"), RUN()], build))
         hs.append(([EDIT("visualize_deps"), RUN(), DEL("dependency-graph.txt"), RUN()], build))
+        # with the dependency visualisation on (its two files print Rust spellings): every edit class again
+        for i, a in enumerate(aspects):
+            if tier == "thorough" or a in ("param_int_width", "ret_int_width", "param_type") or i % 4 == ctx["seed"] % 4:
+                hs.append(([EDIT("visualize_deps"), RUN(), EDIT(a), RUN()], build))
     # systematic: every sequence of up to three steps over {run, forced run, edit, revert the edit, lose a generated file,
     # lose the record, run with a write fault} followed by a plain run (quick: one in five, rotating with the seed)
     alphabet = [RUN(), RUN(forced=True), EDIT("param_type"), EDIT("param_type", -1), DEL("types.ts"), DEL(".typecache"), RUN(fault=2)]
@@ -281,6 +285,10 @@ def c14_multi(seed, nfiles, mode, build, viz=False, prim=False):
             for n in ("api_generated.md", "generated_notes.txt", "schemas.d.ts", "README.md"):
                 with open(os.path.join(outd, n), "w") as fh:
                     fh.write("mine: %s\n" % n)
+        if rc1 == 0 and seed % 3 != 1:
+            # … and empty ones (a placeholder that keeps the directory under version control)
+            for n in (".gitkeep", "empty.ts"):
+                open(os.path.join(outd, n), "w").close()
         s1 = proc.snapshot(outd)
         touched = []
         ok = rc1 == 0
@@ -469,6 +477,15 @@ def cases_c17(ctx):
                 if tier == "thorough":
                     hs.append((pre + [RUN(), EDIT("struct_field_type"), RUN(fault=f), EDIT("struct_field_type", -1), RUN(), RUN()], build))
                     hs.append((pre + [RUN(fault=f), RUN(fault=(f + 1) % (nfiles + 1)), RUN()], build))
+    # the target is busy (the image of a running program), the output directory is on a read-only file system
+    for build in (False, True):
+        for f in ((1, 2, 4) if tier == "thorough" else (1, 3)):
+            hs.append(([RUN(), EDIT("param_type"), RUN(fault=f, kind="busy"), EDIT("param_type", -1), RUN()], build))
+            hs.append(([RUN(), EDIT("param_type"), RUN(fault=f, kind="busy"), RUN()], build))
+            hs.append(([RUN(fault=f, kind="busy"), RUN()], build))
+        hs.append(([RUN(fault=1, kind="rofs"), RUN()], build))
+        hs.append(([RUN(), EDIT("param_type"), RUN(fault=1, kind="rofs"), RUN()], build))
+        hs.append(([RUN(), EDIT("cmd_name"), RUN(fault=1, kind="rofs"), EDIT("cmd_name", -1), RUN()], build))
     # the cache record itself cannot be removed or rewritten while the binding files stay writable
     for build in (False, True):
         hs.append(([RUN(), EDIT("param_type"), RUN(fault=0, kind="immcache"), EDIT("param_type", -1), RUN()], build))
@@ -513,7 +530,9 @@ FOREIGN = ["notes.ts", "types.tsx", "mytypes.ts", "README.md", ".write_test", ".
            # names a write-to-temp-then-rename, backup or editor scheme would use next to the reserved ones
            "types.tmp", "commands.tmp", "events.tmp", "index.tmp", "schemas.tmp", "types.ts.tmp", "commands.ts.tmp", "index.ts.tmp",
            "types.ts~", "types.ts.bak", "types.bak", ".types.ts.swp", "types.ts.new", "commands.new", ".typecache.tmp", "types.test.ts",
-           "commands.mock.ts", "index.spec.ts", "index.mts", "types.cts", "dependency-graph.tmp", "tmp"]
+           "commands.mock.ts", "index.spec.ts", "index.mts", "types.cts", "dependency-graph.tmp", "tmp",
+           # renderings of the graph the user made themselves
+           "dependency-graph.png", "dependency-graph.svg", "dependency-graph.json", "dependency-graph"]
 RESERVED_DECOYS = ["models.ts", "bindings.d.ts", "generated_old.ts", "x_generated.md", "schemas.ts"]
 
 
@@ -538,7 +557,9 @@ def c16_case(layout, path_kind, mode, seq, seed, tables=None):
         proc.write_files(proj, {"tauri.conf.json": json.dumps({"productName": "demo", "plugins": {"other": {"k": [1, 2]}}}, indent=2),
                                 "package.json": "{}", "src/main.ts": "console.log(1)\n", "../sibling.txt": "outside\n"})
         out_rel = {"beside": "out", "nested": "src-tauri/generated", "deep": "web/src/lib/bindings", "up": "../outside_out",
-                   "backslash": "ui\\generated", "spaces": "gen out/my bindings", "dotted": "./out2/./bindings/"}[layout]
+                   "backslash": "ui\\generated", "spaces": "gen out/my bindings", "dotted": "./out2/./bindings/",
+                   # directory names that themselves look like the tool's file-name patterns
+                   "genlike": "./src/__generated__", "genprefix": "generated_bindings/ts_generated"}[layout]
         out_abs = os.path.normpath(os.path.join(proj, out_rel))
         os.makedirs(out_abs, exist_ok=True)
         # files of the user's *beside* the output directory that carry the names of generated files
@@ -770,13 +791,13 @@ def cases_c16(ctx):
     ]
     jobs = []
     k = 0
-    for layout in ("beside", "nested", "deep", "up", "backslash", "spaces", "dotted"):
+    for layout in ("beside", "nested", "deep", "up", "backslash", "spaces", "dotted", "genlike", "genprefix"):
         for path_kind in ("rel", "abs"):
             for seq in seqs:
                 k += 1
                 if tier != "thorough" and k % 2 == 0 and layout in ("deep",):
                     continue
-                if tier != "thorough" and k % 3 != 0 and layout in ("backslash", "spaces", "dotted"):
+                if tier != "thorough" and k % 3 != 0 and layout in ("backslash", "spaces", "dotted", "genlike", "genprefix"):
                     continue
                 jobs.append((layout, path_kind, ("none", "zod")[k % 2], seq, seed * 10 + k % 3, ctx["tables"]))
     # systematic: every sequence of up to three actions (thorough: all 9 + 81 + 729 on one layout; quick: one in ten,
@@ -823,10 +844,13 @@ def spell_json(doc, spelling):
     return json.dumps(doc)
 
 
-def c19_resolve_case(flags, filecfg, tables, spelling="plain"):
-    """one combination of command-line flags and a discovered tauri.conf.json block"""
-    root = proc.sandbox("c19")
+def c19_resolve_case(flags, filecfg, tables, spelling="plain", where="cwd"):
+    """one combination of command-line flags and a discovered tauri.conf.json block (`where`: which of the three places the
+    tool looks in holds the document - the working directory, ./src-tauri, or the parent directory)"""
+    top = proc.sandbox("c19")
     try:
+        root = os.path.join(top, "app") if where == "parent" else top
+        os.makedirs(root, exist_ok=True)
         c19_project(root, "src-tauri", "from_default")
         c19_project(root, "projA", "from_file")
         c19_project(root, "projB", "from_flag")
@@ -835,7 +859,8 @@ def c19_resolve_case(flags, filecfg, tables, spelling="plain"):
         doc = None
         if filecfg is not None:
             doc = {"productName": "demo", "plugins": {"typegen": filecfg}}
-            with open(os.path.join(root, "tauri.conf.json"), "w") as fh:
+            conf_at = {"cwd": root, "src-tauri": os.path.join(root, "src-tauri"), "parent": top}[where]
+            with open(os.path.join(conf_at, "tauri.conf.json"), "w") as fh:
                 fh.write(spell_json(doc, spelling))
         args = ["generate"]
         if "p" in flags:
@@ -848,9 +873,9 @@ def c19_resolve_case(flags, filecfg, tables, spelling="plain"):
             args += ["--verbose"]
         if flags.get("force"):
             args += ["--force"]
-        before = proc.snapshot(root)
+        before = proc.snapshot(top)
         rc, so, se = proc.run_cli(root, args)
-        after = proc.snapshot(root)
+        after = proc.snapshot(top)
         wrote = before != after
         observed = None
         if rc != 0:
@@ -880,10 +905,14 @@ def c19_resolve_case(flags, filecfg, tables, spelling="plain"):
         req = {"op": "configResolve", "h": core.hashlib.sha1(json.dumps([flags, filecfg], sort_keys=True).encode()).hexdigest()[:16],
                "in": {"flags": flags, "doc": doc, "existing": existing},
                "impl": {"observed": observed, "wrote_anything": wrote and rc != 0}, "meta": {}}
-        return Case({"what": "resolve", "flags": flags, "file": filecfg, "spelling": spelling}, {}, [], request=req,
+        # stated outright, whatever the model says: a path flag names a place relative to where the tool was started
+        orc = {"path_flags_in_effect":
+               not (rc == 0 and "o" in flags and not os.path.isfile(os.path.join(root, flags["o"], "commands.ts")))
+               and not ("p" in flags and os.path.isdir(os.path.join(root, flags["p"])) and (observed or {}).get("err") == "path")}
+        return Case({"what": "resolve", "flags": flags, "file": filecfg, "spelling": spelling, "where": where}, orc, [], request=req,
                     detail={"rc": rc, "stderr": se[-300:], "observed": observed})
     finally:
-        proc.cleanup(root)
+        proc.cleanup(top)
 
 
 def c19_init_case(lib, plugins_value):
@@ -997,7 +1026,7 @@ def cases_c19(ctx):
             return [c19_init_target_case(d["output"], d["lib"])]
         if d.get("what") == "init_badpath":
             return [c19_init_badpath_case(d["project"], d["output"])]
-        return [c19_resolve_case(d["flags"], d["file"], ctx["tables"], d.get("spelling", "plain"))]
+        return [c19_resolve_case(d["flags"], d["file"], ctx["tables"], d.get("spelling", "plain"), d.get("where", "cwd"))]
     files = [None,
              {"projectPath": "projA", "outputPath": "outFile", "validationLibrary": "zod"},
              {"projectPath": "projA", "outputPath": "outFile", "validationLibrary": "zod", "verbose": True, "force": True},
@@ -1020,6 +1049,12 @@ def cases_c19(ctx):
         jobs.append(({"o": "./src/generated"}, f, ctx["tables"]))
         jobs.append(({"p": "./src-tauri", "o": "./src/generated", "v": "none"}, f, ctx["tables"]))
         jobs.append(({"p": "./src-tauri"}, f, ctx["tables"]))
+    # the document found in the other two places the tool looks in (./src-tauri, the parent directory)
+    for where in ("src-tauri", "parent"):
+        for mask in (0, 1, 2, 3, 7, 31):
+            flags = {k: v for i, (k, v) in enumerate(flag_keys) if mask >> i & 1}
+            for f in (files[1], files[2], files[5]):
+                jobs.append((flags, f, ctx["tables"], "plain", where))
     jobs.append(({"v": "yup", "p": "empty_proj"}, files[1], ctx["tables"]))
     jobs.append(({"p": "empty_proj"}, files[3], ctx["tables"]))
     jobs.append(({"v": "yup"}, files[1], ctx["tables"]))
